@@ -224,6 +224,10 @@ ComponentPtr ComponentEntity::takeComponent(const std::string &name, bool search
 bool ComponentEntity::replaceComponent(size_t index, const ComponentPtr &newComponent)
 {
     bool status = false;
+    if (newComponent == nullptr) {
+        return false;
+    }
+
     auto oldComponent = component(index);
     ParentedEntityPtr parent = nullptr;
     if (oldComponent != nullptr) {
